@@ -30,6 +30,7 @@ def run(ctx, R, tier):
     R.rule("C13-R4", "every failure of handleRequest ends the connection: handlers leave the loop / return falsy and cover Exception; communication and security errors are re-raised", floor=3)
     R.rule("C13-R5", "SocketConnection.close: session instances dropped, every tracked resource closed under its own suppression, set cleared afterwards, socket errors suppressed, early return only for keep_open", floor=5)
 
+    R.rule("C13-R6", "tracked resources are per connection: the set is created fresh in SocketConnection.__init__", floor=1)
     # ---------------------------------------------------------------- R1
     f = ctx.fn("Pyro5.svr_threads.ClientConnectionJob.__call__")
     cfg = ctx.cfg(f)
@@ -255,6 +256,10 @@ def run(ctx, R, tier):
     adds = [cc for cc, _ in ctx.cg.calls_of(tr) if unparse(cc.func) == "self.client.tracked_resources.add"]
     R.check(bool(adds), "C13-R5", "track_resource|tracks-on-connection", "resources are tracked on the calling connection's set", tr.loc(),
             "track_resource no longer adds to the connection's tracked_resources")
+
+    # ---------------------------------------------------------------- R6
+    from .common import fresh_per_instance
+    fresh_per_instance(ctx, R, "C13-R6", "Pyro5.socketutil.SocketConnection", "tracked_resources", "closing one connection would close the resources tracked for all others")
 
 
 def _inside(node, container):
